@@ -115,16 +115,19 @@ type Spec struct {
 	MethodWrapOff map[string]bool
 	Shared        map[int]*node // named structs used identically on both sides
 	NConts        map[int]*node // named container on ONE side, its unnamed form on the other
+	// BLeaves: id → extend function of a fallible leaf between NAMED BASIC types
+	// (SBl<id> int → TBl<id> int, possibly into a pointer target), keyed by the value.
+	BLeaves map[int]string
 	// SelfRefs: id → "slice" | "map": a named type that refers to itself (type Rec3 []Rec3),
 	// the same type on both sides.
-	SelfRefs map[int]string
-	Unexported    bool          // some shared struct carries unexported fields → goverter:ignoreUnexported
-	HasOptional   bool
-	PtrRoot       map[int]bool
-	nextID        int
-	rng           *rand.Rand
-	maxDepth      int
-	structsAt     []int
+	SelfRefs    map[int]string
+	Unexported  bool // some shared struct carries unexported fields → goverter:ignoreUnexported
+	HasOptional bool
+	PtrRoot     map[int]bool
+	nextID      int
+	rng         *rand.Rand
+	maxDepth    int
+	structsAt   []int
 }
 
 var basics = []string{"int", "int64", "string", "bool", "float64", "uint8", "int32"}
@@ -163,6 +166,7 @@ func NewSpec(seed uint64, prop string) *Spec {
 	s.Shared = map[int]*node{}
 	s.NConts = map[int]*node{}
 	s.SelfRefs = map[int]string{}
+	s.BLeaves = map[int]string{}
 	s.SkipCopyMode = "none"
 	if prop == "C04" {
 		switch r.IntN(6) {
@@ -424,6 +428,20 @@ func (s *Spec) genStruct(depth int) *node {
 	if s.Prop == "C04" && s.rng.IntN(8) == 0 {
 		// unsafe.Pointer: a basic type for go/types whose value is a pointer
 		n.Fields = append(n.Fields, &field{Name: fmt.Sprintf("F%d", len(n.Fields)), TName: fmt.Sprintf("F%d", len(n.Fields)), N: &node{Kind: "basic", Basic: "unsafe.Pointer"}})
+	}
+	if s.Prop == "C07" && s.rng.IntN(3) == 0 {
+		// a fallible conversion between named basic types, mostly into a pointer target
+		// (basic -> *basic is converted inline by a rule of its own), also as list element
+		bl := &node{Kind: "bleaf", ID: s.id()}
+		if s.rng.IntN(3) != 0 {
+			bl.Basic = "ptr"
+		}
+		s.BLeaves[bl.ID] = fmt.Sprintf("ConvBl%d", bl.ID)
+		var fn *node = bl
+		if s.rng.IntN(3) == 0 {
+			fn = &node{Kind: "slice", Elem: bl}
+		}
+		n.Fields = append(n.Fields, s.mkField(len(n.Fields), fn, n))
 	}
 	if s.Prop == "C07" && s.rng.IntN(4) == 0 {
 		// goverter:autoMap: target fields that live in a nested struct of the source; the
@@ -720,6 +738,14 @@ func (s *Spec) expr(n *node, side string) string {
 		return fmt.Sprintf("SAuto%d", n.ID)
 	case "selfref":
 		return fmt.Sprintf("Rec%d", n.ID)
+	case "bleaf":
+		if side == "S" {
+			return fmt.Sprintf("SBl%d", n.ID)
+		}
+		if n.Basic == "ptr" {
+			return fmt.Sprintf("*TBl%d", n.ID)
+		}
+		return fmt.Sprintf("TBl%d", n.ID)
 	case "ptr":
 		return "*" + s.expr(n.Elem, side)
 	case "shared":
@@ -924,6 +950,12 @@ func (s *Spec) TypesSource() string {
 		}
 		fmt.Fprintf(&b, "func Twin%s(%s) TLeaf%d {\n\treturn TLeaf%d{ID: s.ID, Mark: %q + s.V}\n}\n", li.Fn, targ, id, id, li.Fn+":")
 	}
+	for _, id := range sortedIDs(s.BLeaves) {
+		fn := s.BLeaves[id]
+		fmt.Fprintf(&b, "type SBl%d int\ntype TBl%d int\n", id, id)
+		fmt.Fprintf(&b, "func %s(v SBl%d) (TBl%d, error) {\n\tif verifsim.Poisoned(%q, int(v)) {\n\t\treturn 0, verifsim.Inject(%q, int(v))\n\t}\n\treturn TBl%d(int(v)*3 + %d), nil\n}\n", fn, id, id, fn, fn, id, id)
+		fmt.Fprintf(&b, "func Twin%s(v SBl%d) TBl%d { return TBl%d(int(v)*3 + %d) }\n", fn, id, id, id, id)
+	}
 	for i, e := range s.aliasOrder {
 		fmt.Fprintf(&b, "type AL%d = %s\n", i, e)
 	}
@@ -1069,6 +1101,13 @@ func (s *Spec) ConverterSource() string {
 				}
 			}
 		}
+		for _, id := range sortedIDs(s.BLeaves) {
+			if twin {
+				ext = append(ext, "Twin"+s.BLeaves[id])
+			} else {
+				ext = append(ext, s.BLeaves[id])
+			}
+		}
 		if len(ext) > 0 {
 			lines = append(lines, "// goverter:extend "+strings.Join(ext, " "))
 		}
@@ -1145,7 +1184,7 @@ func (s *Spec) ConverterSource() string {
 }
 
 func (s *Spec) usesRuntime() bool {
-	if len(s.Leaves) > 0 {
+	if len(s.Leaves) > 0 || len(s.BLeaves) > 0 {
 		return true
 	}
 	for _, n := range s.Structs {
